@@ -984,6 +984,19 @@ fn gen_and_record<T: Sc>(mode: &str, count: usize, rng: &mut StdRng) -> Vec<RunO
                     base.cert = None;
                     base.with_stats = true;
                 }
+                if i % 7 == 4 {
+                    // as many samples as basis functions (or one less): the Jacobian vanishes up to rounding,
+                    // yet failures propagate like anywhere else
+                    let (m0, _) = fam_shape(&base.fam);
+                    let keep = if i % 14 == 4 { m0 } else { m0.saturating_sub(1).max(1) };
+                    if keep < base.x.len() {
+                        base.x = base.x.iter().take(keep).cloned().collect();
+                        base.y = base.y.rows(0, keep).into_owned();
+                        base.w = base.w.map(|w| w.into_iter().take(keep).collect());
+                        base.cert = None;
+                        base.label = format!("{} N={}", base.label, keep);
+                    }
+                }
                 let (_m, p) = fam_shape(&base.fam);
                 // a caller driven history before the fit
                 let a1: Vec<T> = base.start.iter().map(|v| *v + T::of64(0.5)).collect();
